@@ -124,6 +124,12 @@ def mc_cover(prog: Program) -> RuleResult:
                                 if isinstance(t, FuncInfo) and (t == hook or hook in self_closure(prog, c.qual, t, False)[0]):
                                     if cc.args and isinstance(cc.args[0], ast.Name) and cc.args[0].id == loop.target.id:
                                         ok = True
+                if not ok:
+                    # handed on as a whole to another bulk adder of the class (def __iadd__(self, items): self.extend(items)), which is checked itself
+                    for cc in calls_in(f.node):
+                        if isinstance(cc.func, ast.Attribute) and is_self_attr(cc.func) and adders.get(cc.func.attr, ("", 0))[0] == "each" and cc.func.attr != mname \
+                                and cc.args and isinstance(cc.args[0], ast.Name) and cc.args[0].id == pname:
+                            ok = True
                 r.check(ok, key + "#each", site(f), "", "hook called once per element of the argument",
                         "the hook is not called for each element of the iterable argument")
             if mode == "item" and reach_hook and pname:
